@@ -57,6 +57,14 @@ def main():
             failed2, _ = suite(wt)
             failed = [f for f in failed if f in failed2]
         rc_with, out_with = sh(f"/venv/bin/python {src}/demo.py", cwd=wt, env={"PYTHONPATH": f"{wt}/src", "PYTHONHASHSEED": "0"})
+        # which checks report it: first in the scratch worktree (patch applied there) ...
+        caught = {}
+        for p in PROPS:
+            rcc, outc = sh(f"./check {p} --no-evidence --root {wt}", cwd="/verif")
+            if rcc != 0:
+                rules = sorted({l.split("[")[1].split("]")[0] for l in outc.splitlines() if l.startswith("   src") and "[" in l})
+                errs = [l[:200] for l in outc.splitlines() if l.startswith("ANALYSIS-ERROR")]
+                caught[p] = {"exit": rcc, "rules": rules, "analysis_errors": errs}
         sh("git checkout -- .", cwd=wt)
         rc_without, out_without = sh(f"/venv/bin/python {src}/demo.py", cwd=wt, env={"PYTHONPATH": f"{wt}/src", "PYTHONHASHSEED": "0"})
         suite_ok = failed == [ALWAYS_FAIL]
@@ -66,23 +74,7 @@ def main():
             "demo_without_patch": {"exit": rc_without, "last_line": (out_without.strip().splitlines() or [""])[-1][:400]},
         }
         meta["confirmed"] = bool(suite_ok and rc_with == 1 and rc_without == 0)
-        # which checks report it
-        caught = {}
-        rc, out = sh("git diff --quiet", cwd="/repo")
-        if rc != 0:
-            print("/repo is dirty - not applying")
-            continue
-        rc, out = sh(f"git apply {src}/patch.diff", cwd="/repo")
-        try:
-            if rc == 0:
-                for p in PROPS:
-                    rcc, outc = sh(f"./check {p} --no-evidence", cwd="/verif")
-                    if rcc != 0:
-                        rules = sorted({l.split("[")[1].split("]")[0] for l in outc.splitlines() if l.startswith("   src") and "[" in l})
-                        errs = [l[:200] for l in outc.splitlines() if l.startswith("ANALYSIS-ERROR")]
-                        caught[p] = {"exit": rcc, "rules": rules, "analysis_errors": errs}
-        finally:
-            sh("git checkout -- .", cwd="/repo")
+        # ... (tools/check_seeds.sh repeats this against /repo itself: apply, check, revert)
         meta["checks_reporting"] = caught
         meta["caught_by_own_property_check"] = prop in caught and caught[prop]["exit"] == 1
         old_meta = json.load(open(f"{dst}/meta.json")) if os.path.exists(f"{dst}/meta.json") else {}
